@@ -146,6 +146,8 @@ def tim(q, rng=None):
         return d.isoformat(sep=" ") + ("", " UTC", " +01:00", " -05:00")[zone]                # blank instead of T, blank before the offset
     if k < 0.25 and q % 4 == 0:
         return d.strftime("%a, %d %b %Y %H:%M:%S") + ("", " GMT", " +0100", " -0500")[zone]   # RFC 2822 style
+    if k < 0.6 and q % 240 == 0:
+        return d.strftime("%Y-%m-%dT%H:%M") + ("", "Z", "+01:00", "-05:00")[zone]            # a whole minute, written without seconds
     return d.isoformat() + ("", "Z", "+01:00", "-05:00")[zone]
 
 
